@@ -3,6 +3,7 @@ package scen
 import (
 	"bytes"
 	"fmt"
+	"strings"
 
 	"github.com/go-json-experiment/json/jsontext"
 	jsonv1 "github.com/go-json-experiment/json/v1"
@@ -31,7 +32,7 @@ var v1Strings = []string{"", " ", "\t", "  ", "ab", "x", ">>", "\n", " \t x", "Ã
 func (sc *V1Misc) Run(t *core.Tape, env *Env) (any, []core.Violation) {
 	s := t.S("plan")
 	p := &V1MiscPlan{}
-	p.Op = []string{"Indent", "Indent", "Indent", "Compact", "HTMLEscape", "Valid", "MarshalIndent", "Encoder.SetIndent", "Unmarshal-syntactic-error-from-user-code"}[s.Draw(9)]
+	p.Op = []string{"Indent", "Indent", "Indent", "Compact", "HTMLEscape", "Valid", "MarshalIndent", "Encoder.SetIndent", "Unmarshal-syntactic-error-from-user-code", "Unmarshal-legacy-user-error-then-continue", "Unmarshal-legacy-user-error-then-continue"}[s.Draw(11)]
 	src := gen.Text(s, gen.JSONCfg{MaxBytes: 16 + s.Draw(300), MaxDepth: 1 + s.Draw(4), DupNames: true, InvalidUTF8: s.Chance(1, 6)})
 	if s.Chance(1, 3) {
 		src = gen.Mutate(s, src)
@@ -52,6 +53,7 @@ func (sc *V1Misc) Run(t *core.Tape, env *Env) (any, []core.Violation) {
 		p.Indent = ""
 	}
 	var viols []core.Violation
+	siteSuffix := ""
 	err, panicked, lib, pv := guarded(func() error {
 		var buf bytes.Buffer
 		switch p.Op {
@@ -77,6 +79,38 @@ func (sc *V1Misc) Run(t *core.Tape, env *Env) (any, []core.Violation) {
 				e.SetEscapeHTML(s.Bool())
 				return e.Encode(x)
 			}
+		case "Unmarshal-legacy-user-error-then-continue":
+			// under v1 semantics a semantic error is not fatal: the offending value
+			// must be skipped and decoding must go on behind it
+			kind := []int{peers.BErr, peers.BZero, peers.BUnsupportedAfter, peers.BTwo, peers.BOpen}[s.Draw(5)]
+			siteSuffix = "/" + peers.KindNames[kind]
+			peers.Cur = &peers.Env{Beh: map[int]peers.Behaviour{0: {Kind: kind}}}
+			defer func() { peers.Cur = &peers.Env{} }()
+			val := []string{`5`, `"x"`, `[1,2]`, `{"a":{"b":1}}`, `null`, `true`}[s.Draw(6)]
+			switch s.Draw(4) {
+			case 0:
+				var x []peers.U200
+				e := jsonv1.Unmarshal([]byte(`[`+val+`,`+val+`,`+val+`]`), &x)
+				if len(x) > 3 {
+					return fmt.Errorf("verifsim: %d elements decoded from a 3-element array (err %v)", len(x), e)
+				}
+			case 1:
+				var x struct {
+					F peers.U200
+					G int
+				}
+				e := jsonv1.Unmarshal([]byte(`{"F":`+val+`,"G":5}`), &x)
+				if x.G != 5 && kind == peers.BErr {
+					return fmt.Errorf("verifsim: member G after the failing member was not decoded: G=%d err=%v", x.G, e)
+				}
+			case 2:
+				var x map[string]*peers.U220
+				jsonv1.Unmarshal([]byte(`{"a":`+val+`,"b":`+val+`}`), &x)
+			default:
+				var x [2]peers.U200
+				jsonv1.Unmarshal([]byte(`[`+val+`,`+val+`,`+val+`]`), &x)
+			}
+			return nil
 		case "Unmarshal-syntactic-error-from-user-code":
 			// user code may return any error value, also a bare SyntacticError
 			var x v1BadErr
@@ -86,8 +120,11 @@ func (sc *V1Misc) Run(t *core.Tape, env *Env) (any, []core.Violation) {
 	})
 	_ = err
 	env.Stats.Steps++
+	if !panicked && err != nil && strings.HasPrefix(err.Error(), "verifsim:") {
+		viols = append(viols, core.Violationf("C20", "C20/legacy-error-recovery", "v1."+p.Op, "%v", err))
+	}
 	if panicked && lib {
-		viols = append(viols, core.Violationf("C20", "C20/panic", "v1."+p.Op, "v1.%s(%s, prefix=%q, indent=%q) panicked: %v", p.Op, clip(src, 120), p.Prefix, p.Indent, pv))
+		viols = append(viols, core.Violationf("C20", "C20/panic", "v1."+p.Op+siteSuffix, "v1.%s%s(%s, prefix=%q, indent=%q) panicked: %v", p.Op, siteSuffix, clip(src, 120), p.Prefix, p.Indent, pv))
 	}
 	env.Stats.Probe("v1misc/" + p.Op)
 	env.Stats.Nontrivial = true
